@@ -63,10 +63,9 @@ Theorem C12_edited_schema_never_stale :
 Proof. exact edited_schema_never_stale. Qed.
 Print Assumptions C12_edited_schema_never_stale.
 
-(** a deployment with no source change: every freshly built artefact is judged up
-    to date and nothing is written (per artefact; the workspace-level statement
-    [noop_deploy_rewrites_nothing_full] additionally needs distinct prism names
-    for schemas with different compiled configs, see C12_noop_shared_prism_witness) *)
+(** a deployment with no source change, per artefact: every freshly built artefact
+    is judged up to date and nothing is written (the workspace-level statement
+    follows below) *)
 Theorem C12_noop_deploy_rewrites_nothing_partial :
   forall crc cyid deps_fn Hist s t d p cy files X,
   In s Hist -> files <> [] ->
@@ -80,6 +79,29 @@ Theorem C12_noop_deploy_rewrites_nothing_partial :
                stale_ck (get_tab X (KTab q)) (crc_files crc i files) = false).
 Proof. exact noop_deploy_rewrites_nothing_partial. Qed.
 Print Assumptions C12_noop_deploy_rewrites_nothing_partial.
+
+(** workspace level: under the explicit hypothesis [no_shared_outputs] (no two
+    schema updates write different artefacts under one name: no two schemas share
+    a prism name with different compiled configs, a pack table belongs to one
+    dictionary), the second of two deployments of unchanged sources - from any
+    previously deployed state - returns the very same build directory and logs
+    no rebuild *)
+Theorem C12_noop_deploy_rewrites_nothing :
+  forall crc cyid list_of info_of dinfo_of deps_fn, crc_inj crc -> cyid_inj cyid ->
+  forall Hist, coherent Hist -> nonzero Hist -> deps_closed deps_fn Hist ->
+  forall s a, In s Hist -> wf_srcs list_of info_of deps_fn s ->
+  no_shared_outputs crc cyid info_of dinfo_of deps_fn s -> Inv crc cyid deps_fn Hist a ->
+  let a1 := fst (fst (deploy crc cyid list_of info_of dinfo_of deps_fn s a)) in
+  exists l ok, deploy crc cyid list_of info_of dinfo_of deps_fn s a1 = (a1, l, ok) /\ norebuild l.
+Proof. exact noop_second_deploy. Qed.
+Print Assumptions C12_noop_deploy_rewrites_nothing.
+
+(** the reason for the hypothesis: the shared-prism workspace violates it (and
+    there every deployment rebuilds the prism, C12_noop_shared_prism_witness) *)
+Theorem C12_shared_prism_violates_hypothesis :
+  ~ no_shared_outputs demo_crc demo_cyid demo_info_of demo_dinfo_of demo_deps demo_srcs.
+Proof. exact shared_prism_violates_hypothesis. Qed.
+Print Assumptions C12_shared_prism_violates_hypothesis.
 
 (** non-vacuity and the two observations the model yields (both judged
     hypotheses, not findings; replayed on the real code by the check) *)
